@@ -280,4 +280,6 @@ func runC07(p *P, r *R) {
 		})
 		r.ob("R07.2", "receive side: a stream that receives fallback data is marked fallback", p.pos(mv.Pos()), ok, true, "")
 	}
+	// R07.7 bytes never cross direction: the read buffer becomes the write buffer only when fully consumed (shared with C09 R09.9)
+	borrow(p, r, "C09", runC09, map[string]string{"R09.9": "R07.7"}, nil)
 }
